@@ -7,7 +7,11 @@ import c17
 
 CONFIGS = ['prod']
 EXPLANATION = (
-    'Decided clauses: R1 the rebuild loop — every keyspace storage lists is rebuilt (no filter on the list), its rows are gathered in a '
+    'SEM (abstract interpretation of the MIR, no code runs): KeyspaceGroup::load_states_from_storage is interpreted against a scripted storage (two keyspaces; four rows in '
+    'storage order of which two share a stamp and one is a tombstone; one row) with the storage calls, the operations on the rebuilt sets and the final hand-over as recorded '
+    'effects: every listed keyspace must be rebuilt from its own rows, every row replayed exactly once as the right operation with its own id and stamp, in non-decreasing '
+    'stamp order, and each set handed on under its keyspace\'s name. Subsumes R1, which is evaluated only when a construct is not modelled. '
+    'Structural clauses: R1 the rebuild loop — every keyspace storage lists is rebuilt (no filter on the list), its rows are gathered in a '
     'collection that keeps every row (a map keyed by timestamp would collapse the rows of one bulk write), its metadata is sorted by '
     'the timestamp component before the replay (the replay goes through source 0, whose gate refuses any stamp older than the newest '
     'already seen from the same origin, so an unsorted replay drops entries), a tombstone row is replayed as a delete and a live row as '
@@ -171,7 +175,12 @@ def check_R3(ctx, facts):
 
 def check(ctx):
     facts = ctx.facts('prod')
-    check_R1(ctx, facts)
+    # SEM: load_states_from_storage interpreted against a scripted storage (rebuild_abs): every listed keyspace rebuilt from its own
+    # rows, every row replayed once as the right operation with its own id and stamp, in non-decreasing stamp order, each set handed
+    # on under its name; subsumes R1, which is evaluated only when a construct is not modelled
+    import rebuild_abs
+    if not rebuild_abs.check_rebuild(ctx, facts, 'C07.SEM'):
+        check_R1(ctx, facts)
     check_R3(ctx, facts)
     n0 = len(ctx.obs)
     c17.check_B4(ctx, facts)
